@@ -106,9 +106,10 @@ def replaceLeaves (m : List (String × Ops)) : Ops → Except Err Ops
   | table n cs => match lookupLast m n with
     | some r => .ok r
     | none => .ok (table n cs)
-  | extend s ops p od rv _ => do
+  | extend s ops p od rv w => do
     let s' ← replaceLeaves m s
-    extendParsed s' ops (.cols p) od rv
+    -- fix 8e6df35: a windowed node without partition columns is rebuilt with partition_by=1
+    extendParsed s' ops (if w && p.isEmpty then .one else .cols p) od rv
   | project s ops g => do
     let s' ← replaceLeaves m s
     projectParsed s' ops g
